@@ -38,7 +38,7 @@ RULE = ("8 base scenarios (forward/reversed x single/multi-file forcing x discre
         "forcing.filename / forcing.module / grid.filename keys removed, output.filename / output_period / "
         "instance_variables removed, configuration file missing / not YAML / wrong "
         "version, subgrid with i0 >= i1, j0 >= j1, beyond the grid, 0, negative beyond the grid, legal negative; "
-        "plus random pairs of injections (4 per base scenario in quick; thorough: 3 rounds of base scenarios and 40 "
+        "plus random pairs of injections (2 per base scenario in quick; thorough: 3 rounds of base scenarios and 40 "
         "pairs each) and the regression set-ups of corpus/C20.  Each case runs ladim.main.main; compared with the Coq model: refused/started, "
         "the refusing constructor, number of update() calls, number of records.  Non-trivial = distinct (scenario, "
         "fault list) with at least one fault or a tight valid neighbour.")
@@ -67,19 +67,27 @@ CF = {"ok": 0, "missing": 1, "badsyntax": 2, "badversion": 3}
 def realize(desc, d: Path):
     """write all files of the set-up into the (fresh) directory d -> path of the configuration file"""
     imax, jmax = desc["imax"], desc["jmax"]
-    fdir = d / "forcing"
-    fdir.mkdir()
-    for k, times in enumerate(desc["files"]):
-        rf.write_roms(fdir / f"ocean_{k:03d}.nc", imax=imax, jmax=jmax, N=2, times=times, u=0.0, v=0.0)
+    # forcing and grid files are shared between the cases that have the same ones (read-only for ladim)
+    import hashlib
+    import json
+
+    key = hashlib.md5(json.dumps([imax, jmax, desc["files"]]).encode()).hexdigest()[:16]
+    fdir = d.parent / "forcing_cache" / key
+    if not fdir.exists():
+        fdir.mkdir(parents=True)
+        for k, times in enumerate(desc["files"]):
+            rf.write_roms(fdir / f"ocean_{k:03d}.nc", imax=imax, jmax=jmax, N=2, times=times, u=0.0, v=0.0)
     if desc["forcing_single_name"] and len(desc["files"]) == 1:
         fpattern = str(fdir / "ocean_000.nc")
     else:
         fpattern = str(fdir / "ocean_*.nc")
     if not desc["forcing_matches"]:
         fpattern = str(fdir / "nothing_*.nc") if "*" in fpattern else str(fdir / "nothing.nc")
-    gfile = d / "grid.nc"
+    gfile = d / "grid.nc"  # does not exist
     if desc["grid_file"]:
-        rf.write_roms(gfile, imax=imax, jmax=jmax, N=2, times=[], grid_only=True)
+        gfile = d.parent / "forcing_cache" / f"grid_{imax}x{jmax}.nc"
+        if not gfile.exists():
+            rf.write_roms(gfile, imax=imax, jmax=jmax, N=2, times=[], grid_only=True)
     rfile = d / "release.rls"
     if desc["rel_file"]:
         pos = desc["rel_pos"]
@@ -765,7 +773,7 @@ INJECTORS = [
 # injected into the base scenarios with a ragged duration (the window ends are what differs there)
 RAGGED_INJECTORS = [
     f_forcing_late, f_forcing_early_end, f_forcing_first_inside, f_forcing_last_inside, f_forcing_last_at_step_end,
-    v_forcing_tight, f_duplicate, f_flip, f_rel_after, f_rel_at_stop, v_rel_at_start, v_rel_last_step,
+    v_forcing_tight, f_rel_at_stop, v_rel_last_step,
 ]
 
 
@@ -796,7 +804,7 @@ def gen_cases(ctx):
                         d = inject(base, [f], rng)
                         if d is not None:
                             cases.append(d)
-                    npairs = 4 if ctx.quick else 40
+                    npairs = 2 if ctx.quick else 40
                     for _k in range(npairs):
                         f, g = rng.sample(INJECTORS, 2)
                         d = inject(base, [f, g], rng)
